@@ -12,6 +12,8 @@ NOTES = {
  # appended notes
 NOTES.update({
  "C20r4A": "not covered: needs the host's RequestTableFn to fail once (fault injection in the callbacks); C20/C09 quantify over histories of tables that follow the regulator's instructions, and the unchanged regulator itself drops the players of a failed table opening",
+ "C19A": "no longer a violation on the current tree: since fix fffe38f hand-outs are capped at the room a table has left, so the inflated requirement this change books cannot overfill a table (caught before that repair); its demo passes with the change applied",
+ "C19r2B": "no longer a violation on the current tree (caught before fix fffe38f): the stale requirement is still booked - the demo's intermediate assertion on PlayerCount + Required fails - but no table is asked to hold more than its capacity any more",
  "C20r5A": "not covered: needs the host's AssignPlayersFn to fail once (fault injection in the callbacks), see C20r4A",
  "C08r5B": "not covered: the early deal-in needs the table to collapse to one playing seat while the joiner is still waiting, i.e. other players move between the join and the hand in question - outside the hypothesis 'other players staying put' of the deal-in clause; the position clauses still hold after the change",
  "C14r5A": "not covered: Deal() returning a window of the deck changes no value by itself; it shows only when the caller re-uses the deck slice of a finished hand for the next one, or appends to a returned list - aliasing between the caller's own objects, which the monitors (working on the published state and on JSON copies) do not provoke",
